@@ -68,6 +68,13 @@ func c08LoopBody(t *testing.T, s *sim.Scn, o *sim.Outcome) {
 	}
 	// phase 1: outage
 	w.DA.Outage = true
+	// what the unavailable DA layer answers: a generic error, or one or all of the classified ones (timed out,
+	// already in mempool, deadline, sequence error, a cancellation reported by the DA side although the
+	// node's own context is live)
+	okinds := [][]sim.SubmitKind{nil, {sim.SubTimeout}, {sim.SubInMempool}, {sim.SubDeadline}, {sim.SubSeqErr}, {sim.SubCanceled}, {sim.SubCanceledWrapped},
+		{sim.SubGeneric, sim.SubTimeout, sim.SubCanceled, sim.SubDeadline, sim.SubInMempool, sim.SubCanceledWrapped, sim.SubSeqErr}}
+	w.DA.OutageKinds = okinds[int(s.Cfg["okind"])%len(okinds)]
+	o.Count(fmt.Sprintf("loops:outage-kind-%d", int(s.Cfg["okind"])%len(okinds)), 1)
 	outage := time.Duration(s.Cfg["outage"]) * time.Millisecond
 	txEvery := s.Cfg["txevery"]
 	for el, k := time.Duration(0), int64(0); el < outage; el, k = el+bt, k+1 {
@@ -248,7 +255,7 @@ func c08Body(t *testing.T, s *sim.Scn, o *sim.Outcome) {
 
 func c08LoopGen(r *rand.Rand) *sim.Scn {
 	return &sim.Scn{Cfg: map[string]int64{"loops": 1, "limit": 1 + r.Int64N(6), "lazy": []int64{1, 1, 0}[r.IntN(3)], "bt": []int64{100, 250, 1000}[r.IntN(3)],
-		"idlex": 2 + r.Int64N(6), "dat": []int64{200, 1000, 3000}[r.IntN(3)], "outage": []int64{0, 2000, 15000, 60000, 200000}[r.IntN(5)], "txevery": []int64{0, 0, 1, 5}[r.IntN(4)]}}
+		"idlex": 2 + r.Int64N(6), "dat": []int64{200, 1000, 3000}[r.IntN(3)], "outage": []int64{0, 2000, 15000, 60000, 200000}[r.IntN(5)], "txevery": []int64{0, 0, 1, 5}[r.IntN(4)], "okind": r.Int64N(8)}}
 }
 
 func c08Gen(r *rand.Rand, tier string) *sim.Scn {
